@@ -260,12 +260,13 @@ def do_ops(case) -> dict:
     ops = []
     modes = {}
     o_open, o_unlink, o_symlink, b_open = pathlib.Path.open, pathlib.Path.unlink, pathlib.Path.symlink_to, builtins.open
+    o_islink = pathlib.Path.is_symlink
     try:
         paths = write_project(d, case)
         args = ['-q', '--html-output=' + str(out)] + list(case.get('args', [])) + paths
         os.environ['SOURCE_DATE_EPOCH'] = '1234567890'
         quiet()
-        if case.get('prev') in ('same', 'stale', 'symlink'):
+        if case.get('prev') in ('same', 'stale', 'symlink', 'pagelink'):
             # the previous run is a SEPARATE process (the class-level counters make a second in-process run differ)
             import subprocess
             subprocess.run([sys.executable, '-m', 'pydoctor'] + args, stdout=subprocess.DEVNULL, stderr=subprocess.DEVNULL,
@@ -275,6 +276,10 @@ def do_ops(case) -> dict:
             if case['prev'] == 'symlink':
                 (out / 'nameIndex.html').unlink()
                 (out / 'nameIndex.html').symlink_to('elsewhere.html')
+            if case['prev'] == 'pagelink':        # what a single-root run of another project leaves: <page>.html -> index.html
+                victim = sorted(p.name for p in out.glob('*.*.html'))[0]
+                (out / victim).unlink()
+                (out / victim).symlink_to('index.html')
         prev = snapshot(out) if out.exists() else []
 
         def rel(p):
@@ -310,18 +315,27 @@ def do_ops(case) -> dict:
                 ops.append([2, r, 'removed'])
             return res
 
+        def p_islink(self):
+            r = rel(self)
+            if r is not None:
+                ops.append([3, r])                 # the code asks whether a link sits there (before writing a page)
+            return o_islink(self)
+
         def p_symlink(self, target, *a, **k):
             r = rel(self)
             if r is not None:
                 ops.append([1, r, str(target)])
             return o_symlink(self, target, *a, **k)
         pathlib.Path.open, pathlib.Path.unlink, pathlib.Path.symlink_to, builtins.open = p_open, p_unlink, p_symlink, bi_open
+        pathlib.Path.is_symlink = p_islink
         rc = driver.main(args)
         pathlib.Path.open, pathlib.Path.unlink, pathlib.Path.symlink_to, builtins.open = o_open, o_unlink, o_symlink, b_open
+        pathlib.Path.is_symlink = o_islink
         final = snapshot(out)
         return {'rc': rc, 'ops': ops, 'modes': modes, 'prev': prev, 'final': final}
     finally:
         pathlib.Path.open, pathlib.Path.unlink, pathlib.Path.symlink_to, builtins.open = o_open, o_unlink, o_symlink, b_open
+        pathlib.Path.is_symlink = o_islink
         sys.stdout = sys.__stdout__
         shutil.rmtree(d, ignore_errors=True)
 
